@@ -34,7 +34,7 @@ const (
 	dTrunc    = `{"a":[1,{"b":"x`
 	dEsc      = `["a\tbé\"c",{"k\n":"v\\"}]`
 	dMulti    = `{"a":1} [2,{"b":3}] "s" 4`
-	dNums     = `[1.5,12345678901234567890123,0.1234567890123456789012345,1e3,-0,7]`
+	dNums     = `[1.5,12345678901234567890123,0.1234567890123456789012345,1e3,-0,7,1e400,123456789012345678901234567890,0.1234567890123456789012]`
 	dReuse    = `{"a":{"b":{"c":1}},"d":{"e":2},"f":[{"g":3}]}`
 	dUnm      = `{"x":1,"y":[2,3.5],"z":"s"}`
 	dTopNum   = `12.5e1`
@@ -234,14 +234,14 @@ func (po *parserOps) multiX(name, doc, how string, panicAt int, reuse, viaReader
 		case "chan":
 			if po.genCB {
 				ch := make(chan gen.Node, 64)
-				v, err = po.parse(inst, b, ch)
+				v, err = call(ch)
 				close(ch)
 				for x := range ch {
 					sink = append(sink, x)
 				}
 			} else {
 				ch := make(chan any, 64)
-				v, err = po.parse(inst, b, ch)
+				v, err = call(ch)
 				close(ch)
 				for x := range ch {
 					sink = append(sink, x)
@@ -253,9 +253,17 @@ func (po *parserOps) multiX(name, doc, how string, panicAt int, reuse, viaReader
 }
 
 func (po *parserOps) reader(name string, mk func(b []byte) io.Reader, doc string, args ...any) Kind {
-	return Kind{Name: name, API: po.prefix + "ParseReader", Run: func(inst any) Out {
+	return po.readerX(name, mk, doc, false, args...)
+}
+
+func (po *parserOps) readerX(name string, mk func(b []byte) io.Reader, doc string, reuse bool, args ...any) Kind {
+	ex := ""
+	if reuse {
+		ex = "reuse"
+	}
+	return Kind{Name: name, API: po.prefix + "ParseReader", Exempt: ex, Run: func(inst any) Out {
 		if po.setReuse != nil {
-			po.setReuse(inst, false)
+			po.setReuse(inst, reuse)
 		}
 		b := []byte(doc)
 		v, err := po.read(inst, mk(b), args...)
@@ -299,6 +307,76 @@ func (po *parserOps) tempKinds() (first, rest []Kind) {
 	}
 	rest = append(rest, po.multi("multi_cb_bad", `{"a":1} [2,{"b":3}] }`, "cbbool", 0), po.multi("multi_chan_bad", `{"a":1} [2,}`, "chan", 0))
 	return
+}
+
+// optionKinds: spec/ReuseOptions.tla lists, for the parsers, every per-call option argument of every entry point and
+// the documents whose result depends on it; props/C07.py checks that these kinds exist in every parser family, and the
+// history enumeration (all pairs over the whole menus) then contains every (call WITH the option, call WITHOUT it on
+// a dependent document) pair.  Kind names: <entry>:<option> and <entry>:plain:<document>.
+func (po *parserOps) optionKinds() []Kind {
+	ks := []Kind{
+		po.doc("Parse:plain:nums", dNums, false),
+		po.reader("ParseReader:plain:nums", whole, dNums),
+		po.doc("Parse:plain:multi", dMulti, false),
+		po.reader("ParseReader:plain:multi", whole, dMulti),
+		po.doc("Parse:plain:maps", dReuse2, false),
+		po.reader("ParseReader:plain:maps", whole, dReuse2),
+		po.multi("Parse:callback", dMulti, "cb", 0),
+		po.multi("Parse:callback_bool", dMulti, "cbbool", 0),
+		po.multi("Parse:channel", dMulti, "chan", 0),
+		po.multiX("ParseReader:callback", dMulti, "cb", 0, false, true),
+		po.multiX("ParseReader:callback_bool", dMulti, "cbbool", 0, false, true),
+		po.multiX("ParseReader:channel", dMulti, "chan", 0, false, true),
+	}
+	if po.conv {
+		ks = append(ks,
+			po.doc("Parse:NumConvFloat64", dNums, false, ojg.NumConvFloat64),
+			po.doc("Parse:NumConvString", dNums, false, ojg.NumConvString),
+			po.doc("Parse:NumConvNone", dNums, false, ojg.NumConvNone),
+			po.reader("ParseReader:NumConvFloat64", whole, dNums, ojg.NumConvFloat64),
+			po.reader("ParseReader:NumConvString", whole, dNums, ojg.NumConvString),
+			po.reader("ParseReader:NumConvNone", whole, dNums, ojg.NumConvNone))
+	}
+	if po.setReuse != nil {
+		ks = append(ks, po.doc("Parse:Reuse", dReuse, true), po.readerX("ParseReader:Reuse", whole, dReuse, true))
+	}
+	return ks
+}
+
+// abortKinds: calls that are ABORTED (the reader returns a non-EOF error inside a container, inside a string, inside a
+// number; the callback panics on the first / second document), through every reader / callback entry point.
+func (po *parserOps) abortKinds() []Kind {
+	return []Kind{
+		po.reader("reader_fail_in_string", failer, `{"a":[1,"xy`),
+		po.reader("reader_fail_in_number", failer, `{"a":[1,23`),
+		po.reader("reader_fail_top_number", failer, `123`),
+		po.multi("cb_panic_first", dMulti, "cbbool", 1),
+		po.multiX("reader_cb_panic_first", dMulti, "cbbool", 1, false, true),
+	}
+}
+
+// surrogateKinds: a document that FAILS right after a lone high-surrogate escape at decoded offset k, and a document
+// with a lone low-surrogate escape at the same offset (k = 0, 3, 6), for every automaton that decodes strings.
+func surrogateDocs() (names []string, docs []string) {
+	for _, k := range []int{0, 3, 6} {
+		pre := "abcdef"[:k]
+		tail := ""
+		if k == 3 {
+			tail = "\x01\"]" // invalid byte after the high half; the others end with the input
+		}
+		names = append(names, "hi_fail"+strconv.Itoa(k), "lo"+strconv.Itoa(k), "hi_key_fail"+strconv.Itoa(k), "lo_key"+strconv.Itoa(k))
+		docs = append(docs, `["`+pre+`\ud83d`+tail, `["`+pre+`\ude00"]`, `{"`+pre+`\ud83d`+tail, `{"`+pre+`\ude00":1}`)
+	}
+	return
+}
+
+func (po *parserOps) surrogateKinds() []Kind {
+	names, docs := surrogateDocs()
+	ks := []Kind{}
+	for i := range names {
+		ks = append(ks, po.doc(names[i], docs[i], false))
+	}
+	return append(ks, po.reader("reader_hi_fail3", whole, docs[4]), po.reader("reader_lo3", whole, docs[5]))
 }
 
 func whole(b []byte) io.Reader  { return bytes.NewReader(b) }
@@ -370,7 +448,10 @@ func (po *parserOps) jsonMenu() []Kind {
 		ks = append(ks, po.doc("conv_string", dNums, false, ojg.NumConvString))
 	}
 	ks = append(ks, trest...)
-	return append(ks, rrest...)
+	ks = append(ks, rrest...)
+	ks = append(ks, po.optionKinds()...)
+	ks = append(ks, po.abortKinds()...)
+	return append(ks, po.surrogateKinds()...)
 }
 
 func (po *parserOps) senMenu() []Kind {
@@ -415,7 +496,10 @@ func (po *parserOps) senMenu() []Kind {
 		ks = append(ks, po.unm("unmarshal", dUnm))
 	}
 	ks = append(ks, trest...)
-	return append(ks, rrest...)
+	ks = append(ks, rrest...)
+	ks = append(ks, po.optionKinds()...)
+	ks = append(ks, po.abortKinds()...)
+	return append(ks, po.surrogateKinds()...)
 }
 
 // ---------------------------------------------------------------- validators / tokenizers
@@ -458,6 +542,8 @@ func validatorMenu() []Kind {
 		val("bad_string", dBadStr, true), val("bad_number", dBadNum, true), val("bad_literal", dBadLit, true),
 		val("top_number", dTopNum, true), val("big_ok", dBig, true),
 		rd("reader_small_ok", whole, dValid, true), rd("reader_late_bad_line3", whole, dLateBad3, true),
+		rd("reader_fail_in_string", failer, `{"a":[1,"xy`, true), rd("reader_fail_in_number", failer, `{"a":[1,23`, true),
+		rd("reader_multi_onlyone", whole, dMulti, true),
 	}
 }
 
@@ -553,6 +639,16 @@ func (to *tokOps) menu(senDocs bool) []Kind {
 		tk("bad_string", dBadStr, true, 0), tk("bad_number", dBadNum, true, 0), tk("bad_literal", dBadLit, true, 0),
 		tk("bad_line1", dLine1Bad, true, 0), tk("multi_onlyone", dMulti, true, 0), tk("top_number", dTopNum, true, 0),
 		ld("load_small_ok", whole, dValid, true), ld("load_late_bad_line3", whole, dLateBad3, true), ld("load_many", whole, dMulti, false),
+		ld("load_multi_onlyone", whole, dMulti, true),
+		ld("load_fail_in_string", failer, `{"a":[1,"xy`, true), ld("load_fail_in_number", failer, `{"a":[1,23`, true),
+		tk("handler_panic_first", dValid, true, 1), ldp("load_handler_panic_first", whole, dValid, true, 1),
+	}
+	{
+		names, docs := surrogateDocs()
+		for i := range names {
+			ks = append(ks, tk(names[i], docs[i], true, 0))
+		}
+		ks = append(ks, ld("load_hi_fail3", whole, docs[4], true), ld("load_lo3", whole, docs[5], true))
 	}
 	if senDocs {
 		own := []Kind{tk("bare_key_trunc", `{a:1 b`, true, 0), tk("key_panic", dSenBare, true, 2), tk("bare", dSenBare, true, 0),
@@ -793,7 +889,7 @@ func ojPoolParsers() []Kind {
 	ks := po.jsonMenu()
 	out := []Kind{}
 	for _, k := range ks {
-		if strings.HasPrefix(k.Name, "reuse_") { // Reuse cannot be set through the package-level functions
+		if strings.HasPrefix(k.Name, "reuse_") || strings.HasSuffix(k.Name, ":Reuse") { // Reuse cannot be set through the package-level functions
 			continue
 		}
 		if k.API == "oj.ParseReader" {
@@ -819,7 +915,7 @@ func senPoolParsers() []Kind {
 	}
 	out := []Kind{}
 	for _, k := range po.senMenu() {
-		if strings.HasPrefix(k.Name, "reuse_") {
+		if strings.HasPrefix(k.Name, "reuse_") || strings.HasSuffix(k.Name, ":Reuse") {
 			continue
 		}
 		out = append(out, k)
